@@ -15,7 +15,7 @@ use serde_json::json;
 pub static SPEC: PropSpec = PropSpec {
     id: "C05",
     level: "exploration",
-    rule: "programs: scope-torture functions over the names x, y, z built from 10 constructs (use, let, let referring to the shadowed binding, tuple let, match arm with tuple pattern, match arms with enum patterns, closure with parameter called later, if/else blocks, loop body, nested block) nested up to depth 4, every binder bound to a unique constant and every use printed; plus generated programs with a three-name identifier pool. negative: the same programs with one extra use of a name placed (a) after the construct that bound it ended, (b) before its let, (c) in the sibling arm / branch - each must be rejected with an unresolved-name diagnostic naming it. non-trivial: accepted programs whose uses resolved to >= 5 distinct binders; distinct by (construct nest path) hash",
+    rule: "programs: scope-torture functions over the names x, y, z built from 12 constructs (struct patterns in a let and in a match arm, use, let, let referring to the shadowed binding, tuple let, match arm with tuple pattern, match arms with enum patterns, closure with parameter called later, if/else blocks, loop body, nested block) nested up to depth 4, every binder bound to a unique constant and every use printed; plus generated programs with a three-name identifier pool. negative: the same programs with one extra use of a name placed (a) after the construct that bound it ended, (b) before its let, (c) in the sibling arm / branch - each must be rejected with an unresolved-name diagnostic naming it. non-trivial: accepted programs whose uses resolved to >= 5 distinct binders; distinct by (construct nest path) hash",
     eval_counter: "uses_checked",
     assumptions: &["relative to refsem's environment-stack semantics and gomini"],
     crash_is_violation: false,
@@ -93,7 +93,9 @@ impl<'a> G<'a> {
         let mut sc: Vec<&'static str> = scope.to_vec();
         let mut out = Vec::new();
         for _ in 0..nstmts {
-            let k = if depth == 0 { self.rng.below(4) } else { self.rng.below(11) };
+            let k = if depth == 0 { self.rng.below(5) } else { self.rng.below(13) };
+            // 4 (at depth 0) and 11, 12: struct patterns
+            let k = if depth == 0 && k == 4 { 11 } else { k };
             self.path_hash = self.path_hash.wrapping_mul(1099511628211).wrapping_add(k as u64 + 17 * depth as u64);
             self.constructs += 1;
             match k {
@@ -227,6 +229,35 @@ impl<'a> G<'a> {
                     out.push(let_(&cnt, bi("ref", vec![i(0)])));
                     out.push(Stmt::Expr(Expr::While(Box::new(Expr::Binary(BinOp::Lt, Box::new(bi("ref_get", vec![var(&cnt)])), Box::new(i(2)))), Box::new(Expr::Block(stmts, None)))));
                 }
+                11 => {
+                    // struct pattern in a let: both binders may shadow visible names
+                    let a = self.name();
+                    let mut b = self.name();
+                    if a == b {
+                        b = NAMES[(NAMES.iter().position(|n| *n == a).unwrap() + 1) % 3];
+                    }
+                    let m = *self.rng.pick_ref(&sc);
+                    let c = self.konst();
+                    let lit = Expr::StructLit { name: "Sp".into(), ty: Ty::Struct("Sp".into(), vec![]), fields: vec![("p".into(), i(c)), ("q".into(), add(var(m), i(700_000)))] };
+                    out.push(Stmt::Let(Pat::Struct { name: "Sp".into(), fields: vec![("p".into(), Pat::Var(a.into())), ("q".into(), Pat::Var(b.into()))] }, None, lit));
+                    for n in [a, b] {
+                        if !sc.contains(&n) {
+                            sc.push(n);
+                        }
+                    }
+                }
+                12 => {
+                    // struct pattern in a match arm
+                    let a = self.name();
+                    let c = self.konst();
+                    let mut inner = sc.clone();
+                    if !inner.contains(&a) {
+                        inner.push(a);
+                    }
+                    let body = self.inner_block(depth - 1, &inner, &mut out, &sc);
+                    let lit = Expr::StructLit { name: "Sp".into(), ty: Ty::Struct("Sp".into(), vec![]), fields: vec![("p".into(), i(c)), ("q".into(), i(0))] };
+                    out.push(discard(Expr::Match(Box::new(lit), vec![(Pat::Struct { name: "Sp".into(), fields: vec![("p".into(), Pat::Var(a.into())), ("q".into(), Pat::Wild)] }, body)])));
+                }
                 _ => {
                     let b = self.inner_block(depth - 1, &sc.clone(), &mut out, &sc);
                     out.push(discard(b));
@@ -255,6 +286,7 @@ impl<'a> G<'a> {
 
 fn scope_program(rng: &mut Rng, leak: Option<LeakPlan>) -> Option<(Program, u64, u64, &'static str)> {
     let mut prog = Program::default();
+    prog.items.push(Item::Struct(StructDecl { name: "Sp".into(), tparams: vec![], fields: vec![("p".into(), I32), ("q".into(), I32)], derives: vec![] }));
     prog.items.push(Item::Enum(EnumDecl { name: "Sc".into(), tparams: vec![], variants: vec![("P".into(), vec![I32, I32]), ("Q".into(), vec![I32])], derives: vec![] }));
     let mut g = G { rng, next_const: 100, next_use: 0, uses: 0, path_hash: 1469598103934665603, leak, leak_done: false, leak_kind: "", constructs: 0, pending_after: false };
     let mut main_stmts = Vec::new();
